@@ -556,7 +556,8 @@ def compare(dec, src):
         fmd = dec[axis].get('metadata')
         if fmd is None:
             continue
-        cats = sorted(md[0]) if md else []
+        # every category any id carries (a table may give an id fewer categories than its neighbours)
+        cats = sorted(set().union(*[set(m) for m in md])) if md else []
         unexplained = dict(fmd)
         pending = []
         for c in cats:
@@ -573,7 +574,7 @@ def compare(dec, src):
                     # a name with '/' – take the dataset whose values fit, else any one left
                     pick = None
                     for nm, e in unexplained.items():
-                        if not _md_diff(e, [m[c] for m in md]):
+                        if not _md_diff(e, [m.get(c, _ABSENT) for m in md]):
                             pick = nm
                             break
                     if pick is None:
@@ -588,10 +589,13 @@ def compare(dec, src):
         for c, ent in pending:
             if ent is None:
                 continue
-            d = _md_diff(ent, [m[c] for m in md])
+            d = _md_diff(ent, [m.get(c, _ABSENT) for m in md])
             if d:
                 out.append(('metadata-values', '%s metadata category %r: %s' % (axis, c, d)))
     return out
+
+
+_ABSENT = object()       # the id does not carry the category: nothing is demanded of its entry
 
 
 def _md_diff(ent, want):
@@ -602,6 +606,8 @@ def _md_diff(ent, want):
     if len(vals) != len(want):
         return '%d entries for %d ids' % (len(vals), len(want))
     for k, (g, w) in enumerate(zip(vals, want)):
+        if w is _ABSENT:
+            continue
         if isinstance(w, (list, tuple)):
             if not isinstance(g, list):
                 return 'entry %d is %r, the table holds the list %r' % (k, g, list(w))
